@@ -96,7 +96,7 @@ func c06(c *Ctx) {
 func c06History(r gen.R, u uhppote.IUHPPOTE, cfg ClientCfg, serial uint32, otherIPs [][4]byte, allowDiscovery bool, prepare func(op *rm.Op, serial uint32, a rm.Vals)) []string {
 	hist := []string{}
 	n := 0
-	if r.Chance(0.45) {
+	if len(otherIPs) > 0 && r.Chance(0.45) {
 		n = 1 + r.Pick(3)
 	}
 	for h := 0; h < n; h++ {
@@ -353,7 +353,15 @@ func c06Loopback(c *Ctx) {
 					return n
 				}
 				histBefore := total()
-				hist := c06History(r, u, cfg, serial, [][4]byte{{127, 0, 0, 2}, {127, 0, 0, 9}, {10, 9, 8, 7}}, i%40 == 7, func(hop *rm.Op, hs uint32, ha rm.Vals) {
+				histCfg := cfg
+				if dv.state == "refusing" {
+					histCfg.Devices = nil // earlier calls go to the judged controller only... which refuses: none are made (their requests could not be counted)
+				}
+				histIPs := [][4]byte{{127, 0, 0, 2}, {127, 0, 0, 9}, {10, 9, 8, 7}}
+				if dv.state == "refusing" {
+					histIPs = nil
+				}
+				hist := c06History(r, u, histCfg, serial, histIPs, i%40 == 7 && dv.state != "refusing", func(hop *rm.Op, hs uint32, ha rm.Vals) {
 					cur.Lock()
 					cur.op, cur.serial, cur.args, cur.noise, cur.delay = hop, hs, ha, nil, 0
 					cur.reply = validReply(r, hop, hs+map[bool]uint32{true: 77, false: 0}[hop.Discovery], ha)
